@@ -146,6 +146,10 @@ pub struct Profile {
     pub l1_short_pct: u32,
     /// allow multi-L1 virtual sizes
     pub multi_l1: bool,
+    /// longest write in clusters (small clusters)
+    pub max_write_clusters: u64,
+    /// weights for refcount_order 0..6 (None = uniform from min_refcount_order)
+    pub order_weights: Option<[u32; 7]>,
 }
 
 impl Default for Profile {
@@ -165,6 +169,8 @@ impl Default for Profile {
             max_cluster_bits: 21,
             l1_short_pct: 0,
             multi_l1: true,
+            max_write_clusters: 8,
+            order_weights: None,
         }
     }
 }
@@ -311,8 +317,13 @@ pub fn gen_layers_params(raw: &RawCase, p: &Profile) -> (Vec<LayerSpec>, DevPara
     let ro = if version == 2 {
         4
     } else {
-        let lo = p.min_refcount_order;
-        lo + s.pick((6 - lo + 1) as usize) as u8
+        match &p.order_weights {
+            Some(w) => s.weighted(w) as u8,
+            None => {
+                let lo = p.min_refcount_order;
+                lo + s.pick((6 - lo + 1) as usize) as u8
+            }
+        }
     };
     let max_bs_bits = {
         let hi = std::cmp::min(12, cb);
@@ -407,7 +418,8 @@ pub fn gen_range(r: &[u16], vsize: u64, cs: u64, bs: u64, hot: &[u64], l2_slice_
         1 => to_cluster_end,
         2 => to_cluster_end + bs * (1 + pick1(r[6], 4) as u64),
         3 => {
-            let k = 1 + pick1(r[6], 6) as u64;
+            let lim = std::cmp::max(6, (max_len / cs) as usize);
+            let k = 1 + pick1(r[6], lim) as u64;
             to_cluster_end + k * cs
         }
         _ => bs * (1 + pick1(r[6], std::cmp::max(blocks as usize, 1)) as u64),
@@ -429,7 +441,7 @@ pub fn decode_seq(raw: &RawCase, p: &Profile) -> Decoded {
     let mut ops = Vec::new();
     let mut hot: Vec<u64> = Vec::new();
     let sched = if s.chance(p.sched_pct, 100) { Some(raw.sched.clone()) } else { None };
-    let max_len = if cb >= 17 { 3 * cs } else { 8 * cs };
+    let max_len = if cb >= 17 { 3 * cs } else { p.max_write_clusters * cs };
     for (i, r) in raw.ops.iter().take(p.max_ops).enumerate() {
         let bs = 1u64 << cur.bs_bits;
         let l2_slice_bits = cur.l2.map(|x| x.0).unwrap_or(std::cmp::min(12, cb));
@@ -495,6 +507,7 @@ pub fn decode_seq(raw: &RawCase, p: &Profile) -> Decoded {
             sched,
             faults: None,
             reopen_params: vec![],
+            excluded: vec![],
         },
         max_bs_bits,
     }
